@@ -87,6 +87,14 @@ def ladder(K, lengths=None, gap=0):
     return chord_structure(arcs, lengths, [gap] * (2 * K + 1))
 
 
+EXOTIC = "XPI?nNtm"  # letters a BPSEQ may carry besides ACGU: unknown, modified, lower-case, placeholder
+
+
+def exotic(case):
+    """The same structure with a sequence over letters that are not ACGU (sequence letters never influence 2D code paths)."""
+    return dict(case, seq="".join(EXOTIC[i % len(EXOTIC)] for i in range(case["n"])))
+
+
 def letters_for(n, shift=0):
     return "".join(LETTERS[(i + shift) % 4] for i in range(n))
 
